@@ -80,6 +80,19 @@ def model_labels(cases, tag, rep="RepRowMin"):
     return [np.array(parse_ints(r), dtype=int) for r in res]
 
 
+def model_labels_check(cases, impl_labels, tag, rep="RepRowMin"):
+    """as model_labels, but the comparison with the implementation's label arrays is made inside Coq;
+    returns for each case the number of differing positions (or -7 when the model raised, -9 on length mismatch)"""
+    exprs = []
+    for (tp, order, near, nbs), lab in zip(cases, impl_labels):
+        N = tp.shape[1]
+        exprs.append(f"match perm_labels {order}%nat {N}%nat ({natll(tp)}) {coq_near(near)} {rep} blocks_O{order} {zl(nbs)} with "
+                     f"Ok l => (fix cnt (a b : list Z) : Z := match a, b with x :: a', y :: b' => (if Z.eqb x y then 0 else 1) + cnt a' b' | [], [] => 0 | _, _ => -9 end) l {zl(lab)} "
+                     f"| Err _ => (-7) end")
+    res = coq_eval(f"permchk_{tag}", ["From SymfcV Require Import PyPrelude Tuples Concrete Cutoff Pipeline.", "From SymfcG Require Import Tables."], [], exprs, timeout=2400)
+    return [parse_ints(r)[0] for r in res]
+
+
 def model_cls(cases, tag):
     exprs = []
     for tp, order in cases:
